@@ -280,7 +280,16 @@ def model_part(ctx):
 
 
 
+def library_unchanged(ctx, fp0):
+    fp1 = alias_run.repo_fingerprint()
+    ctx.extra["library_fingerprint"] = fp1
+    if fp0 != fp1:
+        raise core.MachineryError("the library under %s changed while the check was running (%s -> %s): observations of "
+                                  "one run are not comparable, run the check again" % (core.REPO, fp0, fp1))
+
+
 def replay_part(ctx, rng, focus):
+    fp0 = alias_run.repo_fingerprint()
     from harness import alias_api
     meta = alias_api.catalog_meta()
     # ---------------------------------------------------------------- R: configurations enumerated by TLC
@@ -313,6 +322,7 @@ def replay_part(ctx, rng, focus):
     jobs += sjobs
     # one fan-out for everything (packed by expected JIT cost)
     allcases = run_sessions(jobs)
+    library_unchanged(ctx, fp0)
     ctx.extra["t_replayed_s"] = round(time.time() - ctx.t0)
     cases, vcases, scases = allcases[:ncfg], allcases[ncfg:ncfg + nvar], allcases[ncfg + nvar:]
 
